@@ -156,16 +156,26 @@ impl Decoder<'_> {
     /// null character (`\0`), or reaching the limit or end of the stream
     /// and erroring out.
     pub fn string(&mut self) -> Result<String> {
-        // If we have a limit, then don't search further than we need to.
-        let slice = match self.limit {
-            Some(limit) => &self.bytes[self.offset..(self.offset + limit * WORD_NUM_BYTES)],
-            None => &self.bytes[self.offset..],
+        // Never search past the end of the buffer; if we have a limit, then
+        // don't search further than we need to either.
+        let remaining = self.bytes.get(self.offset..).unwrap_or(&[]);
+        let (slice, limited) = match self.limit {
+            Some(limit) => match limit.checked_mul(WORD_NUM_BYTES) {
+                Some(n) if n <= remaining.len() => (&remaining[..n], true),
+                _ => (remaining, false),
+            },
+            None => (remaining, false),
         };
         // Find the null terminator.
-        let first_null_byte = slice.iter().position(|&c| c == 0).ok_or(match self.limit {
-            Some(_) => Error::LimitReached(self.offset + slice.len()),
-            None => Error::StreamExpected(self.offset),
+        let first_null_byte = slice.iter().position(|&c| c == 0).ok_or(if limited {
+            Error::LimitReached(self.offset + slice.len())
+        } else {
+            Error::StreamExpected(self.offset)
         })?;
+        // The word holding the null terminator must lie inside the buffer, too.
+        if (first_null_byte / WORD_NUM_BYTES + 1) * WORD_NUM_BYTES > remaining.len() {
+            return Err(Error::StreamExpected(self.offset));
+        }
         // Validate the string is utf8.
         let result = str::from_utf8(&slice[..first_null_byte])
             .map_err(|e| Error::DecodeStringFailed(self.offset, format!("{}", e)))?;
